@@ -6,7 +6,7 @@ lookup (C03), the constructor's checks (C13) — and the zone-taking constructor
 `LocalTimeType::equal` is not translated (byte loop over the designation buffer): the translation gives it the
 meaning "structural equality", as the model does; the harness exercises the real function (C13 family).
 -/
-import TzVerif.Generated.Src
+import TzVerif.SrcBase
 import TzVerif.Model.TimeZone
 import TzVerif.Proofs.SrcEqCal
 import TzVerif.Proofs.SrcEqRule
